@@ -20,7 +20,7 @@ use std::process::{Command, Stdio};
 use std::sync::atomic::{AtomicUsize, Ordering};
 use std::sync::{Arc, Mutex};
 
-pub const FAMILIES: [&str; 47] = [
+pub const FAMILIES: [&str; 54] = [
     "block-literal-lines",
     "block-folded-long-lines",
     "block-wide-indent",
@@ -69,6 +69,13 @@ pub const FAMILIES: [&str; 47] = [
     "wide-flowmap-key-in-flowmap",
     "wide-flowseq-key-explicit",
     "wide-blockseq-key-explicit",
+    "many-tag-handles-one-document",
+    "all-anchors-then-all-aliases",
+    "deep-nest-many-anchored",
+    "deep-nest-many-tagged",
+    "deep-nest-many-map-entries",
+    "big-anchor-document-then-many-documents",
+    "big-tag-document-then-many-documents",
 ];
 pub const APIS: [&str; 4] = ["iter-str", "iter-buffered", "load-yaml", "load-marked"];
 pub const RATIO_LIMIT: f64 = 6.0;
@@ -345,7 +352,7 @@ pub fn render(family: &str, bytes: usize) -> String {
             }
             s.push_str(": v\n");
         }
-        "deep-nest-many-aliases" | "deep-nest-many-scalars" => {
+        "deep-nest-many-aliases" | "deep-nest-many-scalars" | "deep-nest-many-anchored" | "deep-nest-many-tagged" | "deep-nest-many-map-entries" => {
             // depth and leaf count both grow with the size: per-leaf work that depends on the
             // nesting depth shows up as quadratic
             let depth = (bytes / 8).min(16_384);
@@ -353,11 +360,60 @@ pub fn render(family: &str, bytes: usize) -> String {
             for _ in 0..depth {
                 s.push_str("- ");
             }
-            s.push('[');
+            let map = family == "deep-nest-many-map-entries";
+            s.push(if map { '{' } else { '[' });
             while s.len() < bytes {
-                s.push_str(if family == "deep-nest-many-aliases" { "*a, " } else { "yy, " });
+                match family {
+                    "deep-nest-many-aliases" => s.push_str("*a, "),
+                    "deep-nest-many-scalars" => s.push_str("yy, "),
+                    "deep-nest-many-anchored" => s.push_str(&format!("&b{k} y, ")),
+                    "deep-nest-many-tagged" => s.push_str("!t y, "),
+                    _ => s.push_str(&format!("k{k}: v, ")),
+                }
+                k += 1;
             }
-            s.push_str("z]\n");
+            s.push_str(if map { "z: z}\n" } else { "z]\n" });
+        }
+        "many-tag-handles-one-document" => {
+            // K handles declared, K nodes using one (the pinned parser keeps only the handle
+            // declared last — a C16 matter, noted in DESIGN §12 — so all nodes use that one)
+            let n = bytes / 40;
+            for i in 0..n {
+                s.push_str(&format!("%TAG !h{i}! tag:e.com,{i}:\n"));
+            }
+            s.push_str("---\n");
+            for i in 0..n {
+                let _ = i;
+                s.push_str(&format!("- !h{}!t v\n", n - 1));
+            }
+        }
+        "all-anchors-then-all-aliases" => {
+            let n = bytes / 20;
+            for i in 0..n {
+                s.push_str(&format!("- &a{i} x\n"));
+            }
+            for i in (0..n).rev() {
+                s.push_str(&format!("- *a{i}\n"));
+            }
+        }
+        "big-anchor-document-then-many-documents" | "big-tag-document-then-many-documents" => {
+            // whatever the first document leaves behind (table capacity) must not be paid for
+            // again at every later document boundary
+            if family == "big-anchor-document-then-many-documents" {
+                while s.len() < bytes / 2 {
+                    s.push_str(&format!("- &a{k} x\n"));
+                    k += 1;
+                }
+            } else {
+                while s.len() < bytes / 2 {
+                    s.push_str(&format!("%TAG !h{k}! tag:e.com,{k}:\n"));
+                    k += 1;
+                }
+                s.push_str(&format!("--- !h{}!t v\n", k - 1));
+            }
+            while s.len() < bytes {
+                s.push_str("--- y\n");
+            }
         }
         "sibling-sequence-keys" => {
             while s.len() < bytes {
